@@ -904,3 +904,314 @@ Proof.
     apply (inv_same_spec a a1 s HI HW1 (i_jok _ _ HI)); try reflexivity.
     intros y. rewrite Hl1. apply (proj1 (i_crel _ _ HI)).
 Qed.
+
+(* ---- Snapshot ---------------------------------------------------------------------------- *)
+Lemma sim_Snapshot a s : Inv a s -> sim a s Snapshot.
+Proof.
+  intros HI. apply simo_sim. unfold simo. simpl.
+  eexists _, _, _. split; [reflexivity|]. split; [rewrite (i_id _ _ HI); reflexivity|].
+  destruct (i_sr _ _ HI) as [HF Hm]. split; simpl.
+  - exact (i_wo _ _ HI).
+  - exact (i_jok _ _ HI).
+  - exact (i_nr _ _ HI).
+  - exact (i_crel _ _ HI).
+  - rewrite (i_id _ _ HI). reflexivity.
+  - split; simpl.
+    + apply Forall2_app; [exact HF|]. constructor; [|constructor]. simpl.
+      split; [exact (i_id _ _ HI)|]. split; [lia|]. rewrite drop_all. reflexivity.
+    + intros i j r1 r2 H1 H2 Hij.
+      destruct (decide (j < length (a_revs a))%nat) as [Hlt|Hge].
+      * rewrite lookup_app_l in H1 by lia. rewrite lookup_app_l in H2 by lia. eapply Hm; eauto.
+      * rewrite lookup_app_r in H2 by lia.
+        destruct (j - length (a_revs a))%nat eqn:E; simpl in H2; [|rewrite lookup_nil in H2; done].
+        inversion H2; subst r2. simpl.
+        destruct (decide (i < length (a_revs a))%nat) as [Hlt'|Hge'].
+        -- rewrite lookup_app_l in H1 by lia.
+           destruct (Forall2_lookup_l _ _ _ _ _ HF H1) as (sn & _ & _ & Hle & _). exact Hle.
+        -- rewrite lookup_app_r in H1 by lia.
+           destruct (i - length (a_revs a))%nat eqn:E'; simpl in H1; [|rewrite lookup_nil in H1; done].
+           inversion H1; subst r1. simpl. lia.
+  - exact (i_ent _ _ HI).
+Qed.
+
+(* ---- RevertToSnapshot -------------------------------------------------------------------- *)
+Lemma crel_frame a a' c : a_pers a' = a_pers a -> a_refund a' = a_refund a ->
+  (forall y, look a' y = look a y) -> crel a c -> crel a' c.
+Proof.
+  intros Hp Hf Hl [H1 H2]. split; [|rewrite Hf; exact H2]. intros y. rewrite Hp, Hl. apply H1.
+Qed.
+
+Lemma crel_alter a a' c x o' f ac :
+  a_pers a' = a_pers a -> a_refund a' = a_refund a ->
+  (forall y, look a' y = if decide (x = y) then Some o' else look a y) ->
+  crel a c -> accts c !! x = Some ac -> arel (a_pers a) x o' (f ac) ->
+  crel a' (with_accts c (alter f x (accts c))).
+Proof.
+  intros Hp Hf Hl [H1 H2] Hac Har. split; [|rewrite Hf; exact H2]. intros y. rewrite Hp, Hl. simpl.
+  destruct (decide (x = y)) as [<-|Hne].
+  - rewrite lookup_alter, Hac. exact Har.
+  - rewrite lookup_alter_ne by done. apply H1.
+Qed.
+
+Definition keeps (a a' : astate) : Prop :=
+  a_pers a' = a_pers a /\ a_entries a' = a_entries a /\ a_revs a' = a_revs a /\ a_nextid a' = a_nextid a.
+
+Lemma live_obj_spec a x a1 o : WO a -> live_obj a x = Some (a1, o) ->
+  look a x = Some o /\ WO a1 /\ (forall y, look a1 y = look a y) /\ keeps a a1 /\ a_refund a1 = a_refund a /\
+  a_dirties a1 = a_dirties a /\ a_jidx a1 = a_jidx a.
+Proof.
+  intros HW. unfold live_obj. destruct (get_obj_spec a x HW) as (l & m & Hg & HW1 & Hl1). rewrite Hg. simpl.
+  destruct (look a x) as [o0|]; simpl; [|done]. intros [= <- <-].
+  split; [reflexivity|]. split; [exact HW1|]. split; [exact Hl1|]. repeat split.
+Qed.
+
+Lemma set_in_revert_spec a x o b a' : WO a -> so_set_balance_in_revert a x o b = Some a' ->
+  WO a' /\ (forall y, look a' y = if decide (x = y) then Some (set_bal o b) else look a y) /\ keeps a a' /\
+  a_refund a' = a_refund a.
+Proof.
+  intros HW. unfold so_set_balance_in_revert. destruct (add_dirty a x) as [a2|] eqn:Hd; simpl; [|done].
+  destruct (add_dirty_shape _ _ _ Hd) as (dl & dm & ->).
+  assert (WO (w_dirties a dl dm)) as HW2 by exact HW.
+  destruct (set_obj_spec _ x (set_bal o b) HW2) as (l & m & Hs & HW' & Hl). rewrite Hs. intros [= <-].
+  split; [exact HW'|]. split; [exact Hl|]. repeat split.
+Qed.
+
+Lemma revert_entry_sim a c e a' :
+  WO a -> crel a c -> entry_ok (a_pers a) e -> revert_entry a e = Some a' ->
+  WO a' /\ crel a' (sundo e c) /\ keeps a a'.
+Proof.
+  intros HW HC Hok Hre. destruct e as [x|x prev|x prev pb|x prev|x prev|x k prev|x ph pc|prev| |x|x|x k]; simpl in *; try done.
+  - (* ECreate *) inversion Hre; subst a'. destruct (remove_obj_spec a x HW) as (l & m & -> & HW' & Hl).
+    split; [exact HW'|]. split; [|repeat split]. split; [|exact (proj2 HC)]. intros y. simpl.
+    change (a_pers (w_objs a l m)) with (a_pers a). rewrite Hl. destruct (decide (x = y)) as [<-|Hne].
+    + rewrite lookup_delete, Hok. exact I.
+    + rewrite lookup_delete_ne by done. apply (proj1 HC).
+  - (* ESuicide *)
+    destruct (get_obj_spec a x HW) as (l & m & Hg & HW1 & Hl1). rewrite Hg in Hre. simpl in Hre.
+    set (a1 := w_objs a l m) in *.
+    pose proof (proj1 HC x) as Hx. unfold orel in Hx.
+    destruct (look a x) as [o|] eqn:Hlx.
+    + destruct (accts c !! x) as [ac|] eqn:Hac; [|done].
+      destruct (set_obj_spec a1 x (set_suic o prev) HW1) as (l2 & m2 & Hs & HW2 & Hl2). rewrite Hs in Hre. simpl in Hre.
+      destruct (set_in_revert_spec (w_objs a1 l2 m2) _ _ _ _ HW2 Hre) as (HW' & Hl' & (Hp & He & Hr & Hn) & Hf).
+      split; [exact HW'|]. split; [|repeat split; assumption].
+      eapply (crel_alter a a' c x _ _ ac); eauto.
+      * intros y. rewrite Hl'. destruct (decide (x = y)); [reflexivity|]. rewrite Hl2. rewrite decide_False by done. apply Hl1.
+      * apply (arel_suic _ _ _ _ prev (arel_bal _ _ _ _ pb Hx)).
+    + inversion Hre; subst a'. destruct (accts c !! x) as [ac|] eqn:Hac; [done|].
+      split; [exact HW1|]. split; [|repeat split].
+      split; [|exact (proj2 HC)]. intros y. simpl. change (a_pers a1) with (a_pers a). rewrite Hl1.
+      destruct (decide (x = y)) as [<-|Hne].
+      * rewrite lookup_alter, Hac, Hlx. exact I.
+      * rewrite lookup_alter_ne by done. apply (proj1 HC).
+  - (* EBalance *)
+    destruct (live_obj a x) as [[a1 o]|] eqn:Hlo; simpl in Hre; [|done].
+    destruct (live_obj_spec _ _ _ _ HW Hlo) as (Hlx & HW1 & Hl1 & (Hp1 & He1 & Hr1 & Hn1) & Hf1 & _).
+    destruct (set_in_revert_spec _ _ _ _ _ HW1 Hre) as (HW' & Hl' & (Hp & He & Hr & Hn) & Hf).
+    pose proof (proj1 HC x) as Hx. unfold orel in Hx. rewrite Hlx in Hx.
+    destruct (accts c !! x) as [ac|] eqn:Hac; [|done].
+    split; [exact HW'|]. split; [|repeat split; congruence].
+    eapply (crel_alter a a' c x _ _ ac); eauto; try congruence.
+    * intros y. rewrite Hl'. destruct (decide (x = y)); [reflexivity|apply Hl1].
+    * apply arel_bal. exact Hx.
+  - (* ENonce *)
+    destruct (live_obj a x) as [[a1 o]|] eqn:Hlo; simpl in Hre; [|done].
+    destruct (live_obj_spec _ _ _ _ HW Hlo) as (Hlx & HW1 & Hl1 & (Hp1 & He1 & Hr1 & Hn1) & Hf1 & _).
+    destruct (set_obj_spec a1 x (set_nonce o prev) HW1) as (l & m & Hs & HW' & Hl'). rewrite Hs in Hre. inversion Hre; subst a'.
+    pose proof (proj1 HC x) as Hx. unfold orel in Hx. rewrite Hlx in Hx.
+    destruct (accts c !! x) as [ac|] eqn:Hac; [|done].
+    split; [exact HW'|]. split; [|repeat split; simpl; congruence].
+    eapply (crel_alter a _ c x _ _ ac); eauto.
+    * intros y. rewrite Hl'. destruct (decide (x = y)); [reflexivity|apply Hl1].
+    * apply arel_nonce. exact Hx.
+  - (* EStorage *)
+    destruct (live_obj a x) as [[a1 o]|] eqn:Hlo; simpl in Hre; [|done].
+    destruct (live_obj_spec _ _ _ _ HW Hlo) as (Hlx & HW1 & Hl1 & (Hp1 & He1 & Hr1 & Hn1) & Hf1 & _).
+    pose proof (proj1 HC x) as Hx. unfold orel in Hx. rewrite Hlx in Hx.
+    destruct (accts c !! x) as [ac|] eqn:Hac; [|done].
+    destruct Hx as (A & B & C & D & E & F & G & H & I).
+    destruct (obj_setstate_spec (a_pers a) x o k prev G) as (dl & dm & Hss & HD2 & Hget2). rewrite Hss in Hre. simpl in Hre.
+    destruct (set_obj_spec a1 x (set_dirty o dl dm) HW1) as (l & m & Hs & HW' & Hl'). rewrite Hs in Hre. inversion Hre; subst a'.
+    split; [exact HW'|]. split; [|repeat split; simpl; congruence].
+    eapply (crel_alter a _ c x _ _ ac); eauto.
+    * intros y. rewrite Hl'. destruct (decide (x = y)); [reflexivity|apply Hl1].
+    * unfold arel. simpl. refine (conj A (conj B (conj C (conj D (conj _ (conj F (conj HD2 (conj H _)))))))).
+      -- intros k'. rewrite Hget2. rewrite cset_get by exact I. destruct (decide (k = k')); [reflexivity|apply E].
+      -- apply cset_canon. exact I.
+  - (* ERefund *) inversion Hre; subst a'. split; [exact HW|]. split; [|repeat split].
+    split; [exact (proj1 HC)|reflexivity].
+  - (* ETouch *) inversion Hre; subst a'. split; [exact HW|]. split; [exact HC|repeat split].
+Qed.
+
+Lemma dirties_step_frame a1 x a2 :
+  (a' ← sub_dirty a1 x; n ← get_dirty a' x; if n =? 0 then delete_dirty a' x else Some a') = Some a2 ->
+  exists l m, a2 = w_dirties a1 l m.
+Proof.
+  destruct (sub_dirty a1 x) as [a'|] eqn:H1; simpl; [|done].
+  destruct (sub_dirty_shape _ _ _ H1) as (l & m & ->).
+  destruct (get_dirty _ x) as [n|]; simpl; [|done].
+  destruct (n =? 0).
+  - intros H2. destruct (delete_dirty_shape _ _ _ H2) as (l' & m' & ->). eauto.
+  - intros [= <-]. eauto.
+Qed.
+
+Lemma revert_list_sim L : forall a c a',
+  WO a -> crel a c -> Forall (entry_ok (a_pers a)) L -> revert_list a L = Some a' ->
+  WO a' /\ crel a' (sundo_list L c) /\ keeps a a'.
+Proof.
+  induction L as [|e L IH]; intros a c a' HW HC Hok Hr; simpl in Hr.
+  - inversion Hr; subst. split; [exact HW|]. split; [exact HC|repeat split].
+  - destruct (revert_entry a e) as [a1|] eqn:He; simpl in Hr; [|done].
+    inversion Hok as [|? ? Hoe HoL]; subst.
+    destruct (revert_entry_sim a c e a1 HW HC Hoe He) as (HW1 & HC1 & (Hp1 & He1 & Hr1 & Hn1)).
+    assert (exists a2, match dirtied e with
+                       | Some x => a'0 ← sub_dirty a1 x; n ← get_dirty a'0 x; if n =? 0 then delete_dirty a'0 x else Some a'0
+                       | None => Some a1 end = Some a2 /\ revert_list a2 L = Some a') as (a2 & Hd & Hrl).
+    { destruct (match dirtied e with Some _ => _ | None => _ end) as [a2|]; simpl in Hr; [|done]. eauto. }
+    assert (exists l m, a2 = w_dirties a1 l m) as (dl & dm & ->).
+    { destruct (dirtied e) as [x|]; [apply (dirties_step_frame _ _ _ Hd)|].
+      inversion Hd; subst. exists (a_dirties a2), (a_jidx a2). destruct a2; reflexivity. }
+    destruct (IH (w_dirties a1 dl dm) (sundo e c) a') as (HW' & HC' & (Hp' & He' & Hr' & Hn')).
+    + exact HW1.
+    + exact HC1.
+    + simpl. rewrite Hp1. exact HoL.
+    + exact Hrl.
+    + split; [exact HW'|]. split; [exact HC'|]. simpl in *. repeat split; congruence.
+Qed.
+
+Lemma find_agree id : forall (revs : list (Z * nat)) (snaps : list (Z * core)) i,
+  Forall2 (fun r sn => r.1 = sn.1) revs snaps ->
+  match find_rev id revs i with
+  | Some (j, n) => exists c', find_snap id snaps i = Some (j, c') /\ (i <= j)%nat /\
+                     revs !! (j - i)%nat = Some (id, n) /\ snaps !! (j - i)%nat = Some (id, c')
+  | None => find_snap id snaps i = None
+  end.
+Proof.
+  induction revs as [|[j0 n0] revs IH]; intros snaps i HF.
+  - inversion HF; subst. reflexivity.
+  - inversion HF as [|? [j1 c1] ? snaps' Hh Ht]; subst. simpl in Hh. subst j1. simpl.
+    destruct (j0 =? id) eqn:E.
+    + apply Z.eqb_eq in E. subst. exists c1. rewrite Nat.sub_diag. simpl. repeat split; lia || reflexivity.
+    + destruct (id <? j0); [reflexivity|].
+      specialize (IH snaps' (S i) Ht). destruct (find_rev id revs (S i)) as [[j n]|]; [|exact IH].
+      destruct IH as (c' & H1 & H2 & H3 & H4). exists c'. split; [exact H1|]. split; [lia|].
+      replace (j - i)%nat with (S (j - S i)) by lia. simpl. split; assumption.
+Qed.
+
+Lemma drop_split (l : list entry) r n : (r <= n)%nat -> (n <= length l)%nat ->
+  drop r l = drop r (take n l) ++ drop n l.
+Proof.
+  intros H1 H2. rewrite <- (take_drop n l) at 1. rewrite drop_app_le; [reflexivity|].
+  rewrite take_length. lia.
+Qed.
+
+Lemma sim_Revert a s id : Inv a s -> revert_fine a (RevertToSnapshot id) = true -> sim a s (RevertToSnapshot id).
+Proof.
+  intros HI Hfine. destruct (i_sr _ _ HI) as [HF Hm].
+  assert (Forall2 (fun r sn => r.1 = sn.1) (a_revs a) (snaps s)) as HF1.
+  { eapply Forall2_impl; [exact HF|]. intros r sn (H & _). exact H. }
+  pose proof (find_agree id (a_revs a) (snaps s) 0%nat HF1) as Hfa.
+  unfold revert_fine in Hfine. unfold sim, astep.
+  destruct (find_rev id (a_revs a) 0) as [[j n]|] eqn:Hfr.
+  2: { simpl. rewrite Hfr. simpl. rewrite Hfa. exists OPanic, a, s. done. }
+  destruct Hfa as (c' & Hfs & _ & Hrj & Hsj). rewrite Nat.sub_0_r in Hrj, Hsj.
+  destruct (astep_opt a (RevertToSnapshot id)) as [[r a']|] eqn:Hstep; [|done].
+  simpl in Hstep. rewrite Hfr in Hstep. simpl in Hstep. unfold j_revert in Hstep.
+  destruct (revert_list a (rev (drop n (a_entries a)))) as [a1|] eqn:Hrl; simpl in Hstep; [|done].
+  inversion Hstep; subst r a'. clear Hstep.
+  destruct (Forall2_lookup_lr _ _ _ _ _ _ HF Hrj Hsj) as (_ & Hn & Hc'). simpl in Hn, Hc'.
+  destruct (revert_list_sim (rev (drop n (a_entries a))) a (cur s) a1 (i_wo _ _ HI) (i_crel _ _ HI)) as (HW1 & HC1 & (Hp1 & He1 & Hr1 & Hn1)); [|exact Hrl|].
+  { apply Forall_rev. apply Forall_drop. exact (i_ent _ _ HI). }
+  exists OUnit. eexists. exists {| cur := c'; snaps := take j (snaps s); nextid := nextid s |}.
+  split; [reflexivity|]. split; [simpl; rewrite Hfs; reflexivity|].
+  split; simpl.
+  - exact HW1.
+  - apply jidx_ok_JOK in Hfine. exact Hfine.
+  - rewrite Hp1. exact (i_nr _ _ HI).
+  - rewrite Hc'. exact HC1.
+  - rewrite Hn1. exact (i_id _ _ HI).
+  - split; simpl.
+    + rewrite Hr1. apply Forall2_take with (n := j) in HF.
+      eapply Forall2_lookup; intros q.
+      destruct (take j (a_revs a) !! q) as [r|] eqn:Hq.
+      * destruct (Forall2_lookup_l _ _ _ _ _ HF Hq) as (sn & Hsn & H1 & H2 & H3). rewrite Hsn. constructor.
+        assert (q < j)%nat as Hqj. { apply lookup_lt_Some in Hq. rewrite take_length in Hq. lia. }
+        rewrite lookup_take in Hq by exact Hqj.
+        assert (r.2 <= n)%nat as Hle. { apply (Hm q j r (id, n) Hq Hrj). lia. }
+        split; [exact H1|]. split; [rewrite take_length; lia|].
+        rewrite H3. rewrite (drop_split (a_entries a) r.2 n Hle Hn).
+        rewrite rev_app_distr, sundo_list_app, <- Hc'. reflexivity.
+      * destruct (take j (snaps s) !! q) as [sn|] eqn:Hsn; [|constructor].
+        exfalso. destruct (Forall2_lookup_r _ _ _ _ _ HF Hsn) as (r & Hr' & _). congruence.
+    + rewrite Hr1. intros i1 i2 r1 r2 H1 H2 Hij.
+      assert (i2 < j)%nat. { apply lookup_lt_Some in H2. rewrite take_length in H2. lia. }
+      rewrite lookup_take in H1 by lia. rewrite lookup_take in H2 by lia. eapply Hm; eauto.
+  - rewrite Hp1. apply Forall_take. exact (i_ent _ _ HI).
+Qed.
+
+(* ---- every operation of the proved core, every sequence, every client ---------------------- *)
+Lemma step_ok_pre a o : step_ok a o = true -> pre_violated a o = false.
+Proof.
+  unfold step_ok, step_class. destruct (trig_residue a o); [done|]. destruct (trig_create_over a o); [done|].
+  destruct (trig_stale a o); [done|]. destruct (pre_violated a o); done.
+Qed.
+
+Lemma step_sim a s o : Inv a s -> pstep_ok a o = true -> sim a s o.
+Proof.
+  intros HI Hok. unfold pstep_ok in Hok. apply andb_prop in Hok. destruct Hok as [Hok Hfine].
+  apply andb_prop in Hok. destruct Hok as [Hok Hcore]. apply step_ok_pre in Hok.
+  destruct o; simpl in Hcore; try done.
+  - apply simo_sim, sim_SubBalance; assumption.
+  - apply simo_sim, sim_AddBalance; assumption.
+  - apply simo_sim, sim_GetBalance; assumption.
+  - apply simo_sim, sim_GetNonce; assumption.
+  - apply simo_sim, sim_SetNonce; assumption.
+  - apply sim_AddRefund; assumption.
+  - apply sim_SubRefund; assumption.
+  - apply sim_GetRefund; assumption.
+  - apply simo_sim, (sim_read_slot a s x k true); assumption.
+  - apply simo_sim, (sim_read_slot a s x k false); assumption.
+  - apply simo_sim, sim_SetState; assumption.
+  - apply simo_sim, sim_Suicide; assumption.
+  - apply simo_sim, sim_HasSuicided; assumption.
+  - apply simo_sim, sim_Exist; assumption.
+  - apply simo_sim, sim_Empty; assumption.
+  - apply sim_Snapshot; assumption.
+  - apply sim_Revert; assumption.
+Qed.
+
+Lemma bisim ops : forall a s, Inv a s -> pguardedb a ops = true ->
+  aoutputs a ops = spec_outputs s ops /\ Inv (arun a ops).2 (spec_run s ops).2.
+Proof.
+  induction ops as [|o ops IH]; intros a s HI Hg.
+  - split; [reflexivity|exact HI].
+  - simpl in Hg. apply andb_prop in Hg. destruct Hg as [Hok Hrest].
+    destruct (step_sim a s o HI Hok) as (r & a' & s' & Ha & Hs & HI').
+    unfold aoutputs, spec_outputs in *. simpl. rewrite Ha, Hs. rewrite Ha in Hrest. simpl in Hrest.
+    destruct (IH a' s' HI' Hrest) as [Ho Hi].
+    destruct (arun a' ops) as [rs a''] eqn:Ea. destruct (spec_run s' ops) as [rs' s''] eqn:Es.
+    simpl in *. split; [f_equal; exact Ho|exact Hi].
+Qed.
+
+Lemma any_client strat : forall n a s h, Inv a s -> client_guard n strat a h = true ->
+  client_run_a n strat a h = client_run_s n strat s h.
+Proof.
+  induction n as [|n IH]; intros a s h HI Hg; [reflexivity|].
+  simpl in *. destruct (strat h) as [o|]; [|reflexivity].
+  apply andb_prop in Hg. destruct Hg as [Hok Hrest].
+  destruct (step_sim a s o HI Hok) as (r & a' & s' & Ha & Hs & HI').
+  rewrite Ha, Hs. rewrite Ha in Hrest. f_equal. apply IH; assumption.
+Qed.
+
+Lemma Inv_empty : Inv (a_init []) (spec_init []).
+Proof.
+  split.
+  - intros x i. simpl. rewrite lookup_empty. split; [done|]. intros [o Ho]. rewrite lookup_nil in Ho. done.
+  - intros x i. simpl. rewrite lookup_empty. done.
+  - intros x _ k. unfold pslot; simpl. rewrite lookup_empty. reflexivity.
+  - split; [|reflexivity]. intros x. unfold look; simpl. rewrite lookup_empty. unfold load, pbal; simpl.
+    rewrite !lookup_empty. simpl. exact I.
+  - reflexivity.
+  - split; [constructor|]. intros i j r1 r2 H. simpl in H. rewrite lookup_nil in H. done.
+  - constructor.
+Qed.
